@@ -74,19 +74,13 @@ def asmUnquote (s : Bytes) : Bytes :=
   else s
 
 def globalName (name : Bytes) : Bytes :=
-  match parseUint64 name with
-  | some _ => 64 :: 34 :: (name ++ [34])
-  | none => 64 :: escapeIdent name
+  if allDigits name then 64 :: 34 :: (name ++ [34]) else 64 :: escapeIdent name
 
 def localName (name : Bytes) : Bytes :=
-  match parseUint64 name with
-  | some _ => 37 :: 34 :: (name ++ [34])
-  | none => 37 :: escapeIdent name
+  if allDigits name then 37 :: 34 :: (name ++ [34]) else 37 :: escapeIdent name
 
 def labelName (name : Bytes) : Bytes :=
-  match parseUint64 name with
-  | some _ => 34 :: (name ++ [34, 58])
-  | none => escapeIdent name ++ [58]
+  if allDigits name then 34 :: (name ++ [34, 58]) else escapeIdent name ++ [58]
 
 def typeName (name : Bytes) : Bytes := 37 :: escapeIdent name
 def comdatName (name : Bytes) : Bytes :=
